@@ -51,7 +51,7 @@ var mdDict = []string{
 	"[", "]", "(", ")", "[a](b)", "![a](b)", "[a]: b", "[a][b]", "[^1]", "[^1]: x", "<", ">", "<b>", "</b>", "<a href=\"x\">", "<!-- c -->", "<![CDATA[x]]>",
 	"<http://a.b>", "<a@b.c>", "http://example.com", "www.example.com", "a@b.cc", "&", "&amp;", "&#35;", "&lt;", "\\", "\\\\", "\\*",
 	"|", "a|b", "-|-", ":-:", "- [ ] ", "- [x] ", " ", "  ", "   ", "    ", "\t", "\t\t", " \t", "\n", "\n\n", "\r", "\r\n", "\n\r", "\n\t", "\n    ", "  \n", "\\\n",
-	"a", "b", "word", "1", "2.", "é", " ", "!", ".", "{", "}", ":", "\"", "'", "~", "$", "%", "^", "@", "/", "?", ",", ";",
+	"a", "b", "word", "1", "2.", "é", "\u00a0", "!", ".", "{", "}", ":", "\"", "'", "~", "$", "%", "^", "@", "/", "?", ",", ";",
 	"<div>", "<script>", "</script>", "<pre>", "<?x?>", "<!X>", "***", "___", "* * *", "Title\n===", "Title\n---", "```\ncode\n```", "\n\tcode",
 }
 
@@ -228,12 +228,13 @@ func init() {
 				c.Count("nontrivial")
 			}
 		}, false)
+		sweepStructured(c)
 	})
 }
 
 func normWS(s string) string {
 	f := strings.FieldsFunc(s, func(r rune) bool {
-		return r == ' ' || r == '\t' || r == '\n' || r == '\r' || r == ' ' || r == '\f' || r == '\v'
+		return r == ' ' || r == '\t' || r == '\n' || r == '\r' || r == '\u00a0' || r == '\f' || r == '\v'
 	})
 	return strings.Join(f, " ")
 }
